@@ -44,7 +44,28 @@ def script_of(plan):
         L.append("    frame r2")
         L.append("      enter")
         L.append("        bid start lg")
-    lg = "  logger lg to /simlog"
+    if plan.get("slave"):
+        # the logger as a slave tasker driven by fiats: a framer between the two writers starts it and runs it once per tick; a
+        # framer after the second writer stops it in tick k, i.e. in the same tick as, and after, its last run (the first framer
+        # leaves its running frame at the start of tick k + 1)
+        k = int(plan["slave"])
+        P = Fraction(plan["P"])
+        L.append("  framer drv be active in mid first d0")
+        L.append("    frame d0")
+        L.append("      enter")
+        L.append("        ready lg")
+        L.append("        start lg")
+        L.append("      recur")
+        L.append("        run lg")
+        L.append("      go d1 if elapsed >= %s" % float((k + 1) * P))
+        L.append("    frame d1")
+        L.append("  framer drw be active in back first s0")
+        L.append("    frame s0")
+        L.append("      go s1 if elapsed >= %s" % float(k * P))
+        L.append("    frame s1")
+        L.append("      enter")
+        L.append("        stop lg")
+    lg = "  logger lg to /simlog" + (" be slave" if plan.get("slave") else "")
     if plan.get("lperiod"):
         lg += " at %s" % plan["lperiod"]
     if plan.get("prefill"):
@@ -83,7 +104,7 @@ class C22(Check):
     components["stub"] = COMPONENTS["stub"] + ["file system (substrate.fs.SimFS, no faults)", "calendar (log directory name)"]
     assumptions = ["'update': at each logger run after the first a record is due iff some loggee was updated after the previous record in execution order (not stamp order)",
                    "the final log pass made when the logger is stopped counts as a logger run"]
-    required_probes = ["update-after-logger-same-tick", "same-value-update", "logger-period", "streak", "deck", "logger-restarted", "deck-empty-mapping", "deck-non-mapping-skipped", "reused-empty-file", "reused-content-file", "rotating-log"]
+    required_probes = ["update-after-logger-same-tick", "same-value-update", "logger-period", "streak", "deck", "logger-restarted", "deck-empty-mapping", "deck-non-mapping-skipped", "reused-empty-file", "reused-content-file", "rotating-log", "stopped-in-the-tick-of-its-last-run"]
     quick_runs = 6000
     thorough_runs = 300000
     shrink_fields = ["hist0", "hist1"]
@@ -127,12 +148,20 @@ class C22(Check):
                         val = counter[0] if g.random() < 0.65 else g.choice([0, 1])
                         h.append([t, path, field, val])
             return h
-        return {"P": P, "ticks": ticks, "rule": rule, "fields": g.choice([None, "a", "two"]),
+        plan = {"P": P, "ticks": ticks, "rule": rule, "fields": g.choice([None, "a", "two"]),
                 "lperiod": g.choice([None, None, "0.5", "0.75"]), "hist0": hist(), "hist1": hist(),
                 "restart": g.randint(1, max(1, ticks - 3)) if rule in ("always", "once", "never") and g.random() < 0.35 else None,
                 # an earlier process left a log file of the same name in the (reused) directory: empty (it died before its header
                 # reached the disk) or started (header and a record): only the empty one is a new file and gets a header
                 "prefill": g.choice([None, None, None, None, None, "empty", "empty", "content"]), "rotate": g.random() < 0.3}
+        # (side generator: all other plans stay as they were)
+        import random as _r
+        sg = _r.Random(hashlib.sha256(repr(g.getstate()).encode()).hexdigest())
+        if sg.random() < 0.2 and not plan["restart"] and not plan["prefill"]:
+            plan["slave"] = sg.randint(1, max(1, ticks - 2))
+            plan["lperiod"] = None
+            plan["rotate"] = False
+        return plan
 
     def execute(self, plan):
         out = Outcome()
@@ -324,6 +353,8 @@ class C22(Check):
                 self._was_running = status in (1, 2)
                 if not ran:
                     continue
+                if control == 0 and ran_this_tick.get(stamp):
+                    out.probe("stopped-in-the-tick-of-its-last-run")
                 ran_this_tick[stamp] = True
                 if rule == "never":
                     continue
